@@ -731,11 +731,35 @@ def check_frame(program, rep):
               else f.node.lineno)
     g = program.method('World', 'processors')
     body = strip_docstring(g.node.body)
+    COPIES = ('tuple(self._sorted_processors)',
+              'list(self._sorted_processors)',
+              'self._sorted_processors[:]',
+              'self._sorted_processors.copy()')
     ok = len(body) == 1 and isinstance(body[0], ast.Return) and norm(
-        body[0].value) in ('tuple(self._sorted_processors)',
-                           'list(self._sorted_processors)',
-                           'self._sorted_processors[:]',
-                           'self._sorted_processors.copy()')
+        body[0].value) in COPIES
+    if not ok and len(body) == 2 and isinstance(body[0], ast.If) \
+            and not body[0].orelse and isinstance(body[1], ast.Return) \
+            and len(body[0].body) == 1 and isinstance(
+                body[0].body[0], ast.Assign):
+        # the copy built lazily and remembered: `if self.M is None: self.M =
+        # <copy>; return self.M` - the listing is right as long as the memo
+        # is forgotten by every change of the list (C06.memo, taken over
+        # below for this query)
+        t_, a_ = body[0].test, body[0].body[0]
+        memo = norm(body[1].value) if body[1].value is not None else None
+        ok = (isinstance(t_, ast.Compare) and len(t_.ops) == 1
+              and isinstance(t_.ops[0], ast.Is)
+              and norm(t_.left) == memo and norm(t_.comparators[0]) == 'None'
+              and len(a_.targets) == 1 and norm(a_.targets[0]) == memo
+              and memo is not None and memo.startswith('self._')
+              and norm(a_.value) in COPIES[:2])
+    from rules import c06
+    rep.borrow(c06.check_query_memo, program, rep,
+               keep=lambda o: o.rule == 'C06.memo' and o.site.endswith(
+                   ('World.processors', 'World.get_processor')),
+               rename=lambda r: 'C07.listing',
+               why='`processors` / get_processor answer from a remembered '
+               'copy that a change of the processor list did not forget')
     rep.check(ok, 'C07.frame', g.where, body[0] if body else g.node.name,
               '`processors` lists the execution list in order',
               '`processors` does not return the execution list in its order',
